@@ -204,6 +204,34 @@ def check(ctx):
                 r1.bad(V(r1.id, fid, "random-hasher:%s" % short_path(p), "digest uses a randomly keyed hasher", c.file, c.line))
             if p.endswith("DefaultHasher::new"):
                 r1.ok("%s uses DefaultHasher::new() (fixed keys)" % short_path(fid))
+    # the digest says what the output depends on, not how this run was started: `force` and `verbose` change no generated byte, so a digest that
+    # reads them differs between a forced and a plain run over identical inputs — the plain run after a forced one rewrites everything
+    RUN_ONLY_FIELDS = {"force", "verbose"}
+    RUN_ONLY_GETTERS = {"GenerateConfig::should_force", "GenerateConfig::is_verbose"}
+    n_ro = 0
+    for fid in sorted(hscope):
+        f = P.fns[fid]
+        if "{promoted#" in fid or not fid.startswith(("tauri_typegen::build::generation_cache::", "<tauri_typegen::build::generation_cache::")):
+            continue
+        hits = set()
+        for c in f.calls:
+            if c.bb in f.reach_blocks and short_path(c.best) in RUN_ONLY_GETTERS:
+                hits.add(short_path(c.best).split("::")[-1] + "()")
+        import json as _json
+        for b_ in f.reach_blocks:
+            txt = _json.dumps([st.get("rv") for st in f.blocks[b_]["stmts"]] + [f.blocks[b_]["term"].get("args")])
+            for m_ in re.finditer(r'"adt": "tauri_typegen::interface::config::GenerateConfig"[^{}]*?"name": "(\w+)"', txt):
+                if m_.group(1) in RUN_ONLY_FIELDS:
+                    hits.add(m_.group(1))
+            for m_ in re.finditer(r'"name": "(\w+)"[^{}]*?"adt": "tauri_typegen::interface::config::GenerateConfig"', txt):
+                if m_.group(1) in RUN_ONLY_FIELDS:
+                    hits.add(m_.group(1))
+        n_ro += 1
+        if hits:
+            r1.bad(V(r1.id, fid, "digest-reads-run-mode:%s" % ",".join(sorted(hits)),
+                     "%s feeds %s into the digest: the digest of a forced (or verbose) run differs from that of a plain run over the same inputs, so the next plain run regenerates"
+                     % (short_path(fid), sorted(hits)), f.file, f.line))
+    r1.ok("%d digest functions read neither force nor verbose" % n_ro)
     # command discovery order
     ap = [f.id for f in P.find("CommandAnalyzer::analyze_project_with_verbose")]
     ascope = P.reachable(ap)
